@@ -11,7 +11,6 @@ package main
 // panic, every call returned a value or an error.
 
 import (
-	"errors"
 	"fmt"
 	"io"
 	"runtime/debug"
@@ -447,8 +446,6 @@ func c30UndeclCoq(in c30UndeclIn) string {
 	}
 	return fmt.Sprintf("(%s, %s, %s)", m, CoqBool(in.Audio), CoqBool(in.Video))
 }
-
-var errC30 = errors.New("c30")
 
 func init() {
 	Register(Spec[c30WalkIn]{
